@@ -66,6 +66,7 @@ def gen_struct(rng, idx, allow_nested=True):
     lt = 'a' if (idx // 6) % 3 >= 1 else None
     lt2 = 'b' if (idx // 6) % 3 == 2 else None
     constn = (idx // 18) % 2 == 1 and (idx % 5 != 0)
+    constm = constn and idx % 3 == 0          # a second const parameter
     ctx = dict(tparams=tparams, lt=lt, lt2=lt2, constn=constn, used=set())
     nf = rng.choice([1, 2, 3, 4, 6])
     fields, checks, mks, frame = [], [], [], []
@@ -118,8 +119,11 @@ def gen_struct(rng, idx, allow_nested=True):
                                '#[difference(map_equality = "key_only", collection_strategy = "unordered_map_like")]']) + '\n    '
             checks.append(f"        if r.{acc} != b.{acc} {{ return Err(format!(\"map field {fname}: {{:?}} != {{:?}}\", r.{acc}, b.{acc})); }}")
             feats.append('map'); all_skipped = False
-        vis = rng.choice(['', 'pub ', 'pub(crate) ', 'pub '])
-        fields.append((fname, f"    {rng.choice(DOCS).replace(chr(10), chr(10) + '    ') if rng.random() < 0.3 else ''}{rng.choice(FOREIGN).replace(chr(10), chr(10) + '    ') if rng.random() < 0.2 else ''}{attr}{vis}{fname}: {ty},"))
+        vis = rng.choice(['', 'pub ', 'pub(crate) ', 'pub ', 'pub(in crate) ', 'pub(self) ', 'pub(super) '])
+        doc = rng.choice(DOCS).replace(chr(10), chr(10) + '    ') if rng.random() < 0.3 else ''
+        foreign = rng.choice(FOREIGN).replace(chr(10), chr(10) + '    ') if rng.random() < 0.2 else ''
+        pre, post = ((doc + foreign), '') if rng.random() < 0.6 else (foreign, doc) if rng.random() < 0.5 else ('', doc + foreign)      # other attributes before and after the difference one
+        fields.append((fname, f"    {pre}{attr}{post}{vis}{fname}: {ty},"))
         mks.append(f"{fname}: Mk::mk(s.wrapping_mul(31).wrapping_add({i}))")
         frame.append(f"(r.{acc} != a.{acc}) as usize")
     if all_skipped:     # a struct whose every field is skipped does not compile (known finding D5): keep one real field
@@ -136,6 +140,9 @@ def gen_struct(rng, idx, allow_nested=True):
     if lt2 and ("'" + lt2) not in ctx['used']:
         fields.append(('lt2_user', f"    pub lt2_user: Option<&'{lt} Vec<&'{lt2} u8>>,")); mks.append("lt2_user: Mk::mk(s + 6)"); frame.append("(r.lt2_user != a.lt2_user) as usize")
         checks.append("        if r.lt2_user != b.lt2_user { return Err(format!(\"plain field lt2_user\")); }")
+    if constm:
+        fields.append(('arr_m', "    pub arr_m: [[u8; M]; 2],")); mks.append("arr_m: Mk::mk(s + 9)"); frame.append("(r.arr_m != a.arr_m) as usize")
+        checks.append("        if r.arr_m != b.arr_m { return Err(format!(\"plain field arr_m\")); }")
     if constn and 'N' not in ctx['used']:
         fields.append(('arr_n', "    pub arr_n: [u8; N],")); mks.append("arr_n: Mk::mk(s + 7)"); frame.append("(r.arr_n != a.arr_n) as usize")
         checks.append("        if r.arr_n != b.arr_n { return Err(format!(\"plain field arr_n\")); }")
@@ -151,18 +158,23 @@ def gen_struct(rng, idx, allow_nested=True):
         else:
             gl.append(t)
             if bound_style in ('where', 'mixed'): wl.append(f"{t}: {b}")
+    # where clauses over types that are not bare parameters (a tuple, an array, a generic type), bounded by a trait nothing implies
+    if tparams and rng.random() < 0.35:
+        t0 = tparams[0]; t1 = tparams[1] if len(tparams) > 1 else tparams[0]
+        wl.append(rng.choice([f"({t0}, {t1}): Marker", f"Vec<{t0}>: Marker", f"[{t0}; 2]: Marker", f"({t1},): Marker"])); feats.append('where_on_compound_type')
     if tparams and idx % 3 == 1 and not constn:
         gl[-1] = gl[-1] + " = i64"; feats.append('default_type_param')
     if constn: gl.append("const N: usize"); feats.append('const_generic')
+    if constm: gl.append("const M: usize"); feats.append('two_const_generics')
     if lt: feats.append('lifetime')
     if lt2: feats.append('two_lifetimes')
     if tparams: feats.append('type_params_' + bound_style)
     gen = f"<{', '.join(gl)}>" if gl else ''
     where = f"\nwhere\n    {', '.join(wl)}," if wl else ''
-    args = ', '.join((["'static"] if lt else []) + (["'static"] if lt2 else []) + ['i64' if j % 2 == 0 else 'String' for j, _ in enumerate(tparams)] + (['3'] if constn else []))
+    args = ', '.join((["'static"] if lt else []) + (["'static"] if lt2 else []) + ['i64' if j % 2 == 0 else 'String' for j, _ in enumerate(tparams)] + (['3'] if constn else []) + (['2'] if constm else []))
     inst = f"{name}<{args}>" if args else name
     impl_gen = gen.replace(' = i64', '')
-    impl_args = ', '.join((["'" + lt] if lt else []) + (["'" + lt2] if lt2 else []) + tparams + (['N'] if constn else []))
+    impl_args = ', '.join((["'" + lt] if lt else []) + (["'" + lt2] if lt2 else []) + tparams + (['N'] if constn else []) + (['M'] if constm else []))
     mk_bounds = ', '.join([f"{t}: Mk" for t in tparams])
     svis = rng.choice(['pub ', '', 'pub '])
     sattr = rng.choice(['', '', '#[difference(setters)]\n', '#[difference(expose)]\n', f'#[difference(expose = "{name}Diff")]\n'])
@@ -184,7 +196,7 @@ def gen_enum(rng, idx):
     name = f"D{idx}"
     tp = rng.random() < 0.4
     T = 'T' if tp else 'i64'
-    variants = ['A', f'B({T})', f'C {{ x: {T}, y: Option<String> }}', 'D(i64, bool)', 'E { }', 'F()']
+    variants = ['A', f'B({T})', f'C {{ x: {T}, y: Option<String> }}', 'D(i64, bool)', 'E { }', 'F()', 'K(u8, String, (i64, bool))']
     rng.shuffle(variants); variants = variants[:rng.randint(1, 5)]
     if tp and not any('T' in v[1:] for v in variants): variants.append('B(T)' if not any(v.startswith('B') for v in variants) else 'G(T)')      # a declared parameter must be used (rustc E0392)
     # stratified: a lifetime (reference inside a generic argument, Cow), a const parameter (array length)
@@ -196,7 +208,8 @@ def gen_enum(rng, idx):
     arms = []
     for k, v in enumerate(variants):
         vn = v[0]
-        if v.startswith(('H(', 'J(')): e = f"{name}::{vn}(" + ('Mk::mk(s), Mk::mk(s + 1)' if "str>, i64" in v else 'Mk::mk(s)') + ")"
+        if v.startswith('K('): e = f"{name}::{vn}(Mk::mk(s), Mk::mk(s + 1), Mk::mk(s + 2))"
+        elif v.startswith(('H(', 'J(')): e = f"{name}::{vn}(" + ('Mk::mk(s), Mk::mk(s + 1)' if "str>, i64" in v else 'Mk::mk(s)') + ")"
         elif '(' in v and v.endswith('()'): e = f"{name}::{vn}()"
         elif '(' in v: e = f"{name}::{vn}(" + ', '.join('Mk::mk(s + %d)' % j for j in range(v.count(',') + 1)) + ")"
         elif '{' in v and 'x:' in v: e = f"{name}::{vn} {{ x: Mk::mk(s), y: Mk::mk(s + 1) }}"
@@ -246,6 +259,10 @@ impl<K: Mk + Ord, V: Mk> Mk for BTreeMap<K, V> { fn mk(s: u64) -> Self { (0..(s 
 impl<T> Mk for std::marker::PhantomData<T> { fn mk(_: u64) -> Self { std::marker::PhantomData } }
 impl<'x> Mk for std::borrow::Cow<'x, str> { fn mk(s: u64) -> Self { if s % 2 == 0 { std::borrow::Cow::Borrowed(["p", "q", "r"][(s % 3) as usize]) } else { std::borrow::Cow::Owned(format!("o{}", s % 4)) } } }
 impl<T: Mk + 'static> Mk for &'static T { fn mk(s: u64) -> Self { Box::leak(Box::new(T::mk(s))) } }
+/// a trait implemented for a few concrete types only: a where clause over it is NOT implied by anything, so every generated impl has to repeat it
+pub trait Marker {}
+impl Marker for (i64, String) {} impl Marker for (i64, i64) {} impl Marker for (String, i64) {} impl Marker for (String, String) {}
+impl Marker for Vec<i64> {} impl Marker for Vec<String> {} impl Marker for [i64; 2] {} impl Marker for [String; 2] {} impl Marker for (i64,) {} impl Marker for (String,) {}
 pub fn sorted_dbg<I: IntoIterator>(c: I) -> Vec<String> where I::Item: std::fmt::Debug { let mut v: Vec<String> = c.into_iter().map(|x| format!("{:?}", x)).collect(); v.sort(); v }
 '''
 
